@@ -38,6 +38,8 @@ STAT_FIELDS_SKIP = {"field", "metric", "is_forecast", "keep_samples"}
 # (`X.title() cannot combine a positional argument with keyword arguments`; they also fail in the
 # library's own test-suite). They are probed each run and listed in the evidence.
 KNOWN_BROKEN_PLOTS = {"plot_drip", "plot_hose"}
+# altair deep-copies the embedded data per layer/facet: these three dominate the run time
+HEAVY_PLOTS = {"plot_right_edge", "plot_mountain", "plot_broom"}
 
 
 # ----------------------------------------------------------------------------------------------
@@ -69,8 +71,13 @@ def rand_triangle_cells(rng, n_slices=None, small=False, for_plot=False):
             rows = gen.layout_daily(rng)
         else:
             shape = rng.choice(["square", "triangle", "ragged", "ragged"])
-            rows = gen.layout_regular(rng, res=res, n_periods=rng.randrange(1, 4 if small else 5),
-                                      n_lags=rng.randrange(1, 4 if small else 5), start_year=y0, shape=shape)
+            if for_plot:     # small: altair deep-copies the embedded data for every layer/facet
+                shape = rng.choice(["triangle", "ragged"])
+                rows = gen.layout_regular(rng, res=res, n_periods=rng.randrange(2, 4), n_lags=rng.randrange(2, 4),
+                                          start_year=y0, shape=shape)
+            else:
+                rows = gen.layout_regular(rng, res=res, n_periods=rng.randrange(1, 4 if small else 5),
+                                          n_lags=rng.randrange(1, 4 if small else 5), start_year=y0, shape=shape)
         if same_layout:
             shared_rows = shared_rows or rows
             rows = shared_rows
@@ -382,6 +389,8 @@ def plot_checks(ctx, rng):
         tri = Triangle(cells)
         ns_real = len(tri.slices)
         for name in names:
+            if not ctx.thorough and name in HEAVY_PLOTS and ti in (3, 5):
+                continue      # quick tier: the three slowest chart builders run on 4 of the 6 triangles
             case = {"plot": name, "cells": w_cells(tri.cells)}
             try:
                 with warnings.catch_warnings():
@@ -427,7 +436,7 @@ def plot_checks(ctx, rng):
 def correspondence(ctx):
     rng = ctx.rng
     drv = common.Driver("drv_c20")
-    n = 3000 if ctx.thorough else 150
+    n = 3000 if ctx.thorough else 200
     stat_fields = [f.name for f in dataclasses.fields(P.FieldSummary) if f.name not in STAT_FIELDS_SKIP]
     reqs, cases = [], []
     for i in range(n):
